@@ -5,6 +5,9 @@ import AdfObdd.PreGround
 import AdfObdd.FromParserProofs
 import AdfObdd.HybridExample
 import AdfObdd.WfCheck
+import AdfObdd.HybridCli
+import AdfObdd.StoreLib
+import AdfObdd.HybridFacts
 /-! # C09 — compilation to diagrams preserves every acceptance condition (native + bridge) -/
 namespace C09
 
@@ -45,7 +48,8 @@ faithful to that: two dumps that differ only in their first two entries are repl
 assumption "entry 0 is the ⊥ terminal, entry 1 the ⊤ terminal" is therefore not a shape condition the
 code could violate or check; it is part of HOW A DUMP IS READ AS A FUNCTION (`Den d 0 = ⊥`, `Den d 1 = ⊤`,
 Bridge.lean) and enters every theorem through `Bio.DumpSpec` ("the last entry denotes the diagram").
-`Bio.dumpTerminals` is the checkable shape biodivine actually writes (`|nv,0,0|nv,1,1|`). -/
+`Bio.dumpTerminals` is the shape biodivine actually writes (`|nv,0,0|nv,1,1|`); it is NOT checked anywhere:
+the harness never sees a biodivine dump (it validates the bridged native table with `wfCheck`/`isoCheck`). -/
 theorem bridge_ignores_terminal_entries (a b a' b' : Node) (rest : List Node) (s : Store) :
     Bio.termVec (a :: b :: rest) s = Bio.termVec (a' :: b' :: rest) s ∧
     Bio.termVec (a :: b :: rest) s = replayL ((a :: b :: rest).drop 2) s [0, 1] := ⟨rfl, rfl⟩
@@ -115,6 +119,104 @@ example :
     rw [h.2 σ, hden x hx]
     simp
 
+/-- the same in terms of the WRITTEN conditions (biodivine `from_parser` = `Bio.fromFormulas`): the handle
+of statement `i` denotes the written condition `fms[i]` (`opt = false`) resp. that condition with the
+grounded interpretation substituted (`opt = true`) -/
+theorem hybrid_import_written_condition {T : Type} (L : Bio.Lib T) (fms : List Fm) (W : Bio.Lawful L fms.length)
+    (dump : T → List Node) (hd : Bio.DumpSpec W dump) (opt : Bool)
+    (hv : ∀ f ∈ fms, NConc.atomsLt fms.length f) :
+    let r := Bio.hybridStep L dump opt (Bio.fromFormulas L fms)
+    let g := (Bio.bioGrounded L (Bio.fromFormulas L fms)).map storeIsConst
+    WF r.1 ∧ r.2.length = fms.length ∧ IsLfp (fms.map Fm.sem) g ∧
+    ∀ (i t : Nat) (f : Fm), r.2[i]? = some t → fms[i]? = some f →
+      t < r.1.nodes.size ∧ ∀ σ, eval r.1 t σ = f.sem (if opt then over σ 0 g else σ) := by
+  intro r g
+  have ⟨a, b, c, _⟩ := Bio.fromFormulas_spec fms W hv
+  have h := hybrid_import_function L fms.length W dump hd opt _ b a
+  simp only at h
+  rw [c] at h
+  refine ⟨h.1, h.2.1, h.2.2.1, ?_⟩
+  intro i t f ht hf
+  have hi : i < (Bio.fromFormulas L fms).length := by
+    rw [a]
+    rcases Nat.lt_or_ge i fms.length with h' | h'
+    · exact h'
+    · rw [List.getElem?_eq_none h'] at hf; cases hf
+  have hx : (Bio.fromFormulas L fms)[i]? = some (Bio.fromFormulas L fms)[i] := List.getElem?_eq_getElem hi
+  have hden : W.den (Bio.fromFormulas L fms)[i] = f.sem := by
+    have h1 : ((Bio.fromFormulas L fms).map W.den)[i]? = some (W.den (Bio.fromFormulas L fms)[i]) := by
+      simp [hx]
+    rw [c] at h1
+    simp only [List.getElem?_map, hf, Option.map_some, Option.some.injEq] at h1
+    exact h1.symm
+  have := h.2.2.2 i t _ ht hx
+  rw [hden] at this
+  exact this
+
+/-! ### the bridge the CLI model runs is the bridge of these theorems (review 2, item 3)
+
+Two models of `from_biodivine_vector` exist: `Bio.bridgeOne / bridgeAll / hybridStep` (HybridModel.lean;
+every hybrid theorem of C01-C03 and `hybrid_import_function` above) and `CliM.bridgeOne / bridgeAll /
+hybridStep` (CliModes.lean; what `CliM.runText`, C15 and the model driver execute). They are the same
+function wherever a non-constant diagram has a dump with its two terminal entries - in particular under
+`Bio.DumpSpec` - and differ only on a one-entry dump (the last pushed term is the initial `Term(0)`; the
+CLI model reads index `length - 1` of `[0, 1]`), which no lawful world produces. -/
+
+theorem cli_bridge_is_this_bridge {T : Type} (L : Bio.Lib T) (dump : T → List Node) (s : Store) (t : T)
+    (h : L.isTrue t = false → L.isFalse t = false → 2 ≤ (dump t).length) :
+    CliM.bridgeOne L dump s t = Bio.bridgeOne L dump s t := Bio.bridgeOne_agree L dump s t h
+
+/-- **`CliM.hybridStep` = `Bio.hybridStep … true`** (`hybrid_step()`, what `main.rs` calls) for every
+lawful library and dump satisfying `DumpSpec`: the hybrid theorems of C01, C02, C03 and C09 are about the
+function the driver runs in its hybrid arm -/
+theorem cli_hybrid_step_is_this_hybrid_step {T : Type} (L : Bio.Lib T) (n : Nat) (W : Bio.Lawful L n)
+    (dump : T → List Node) (hd : Bio.DumpSpec W dump) (ac : List T) (hv : ∀ a ∈ ac, W.Valid a)
+    (hn : ac.length ≤ n) :
+    CliM.hybridStep L dump ac = Bio.hybridStep L dump true ac := Bio.hybridStep_agree W hd ac hv hn
+
+/-- the only difference between the two models (unreachable under `DumpSpec`): a one-entry dump of a
+non-constant diagram -/
+example : (Bio.bridgeOne (Bio.ttLib 1) (fun _ => [⟨1, 0, 0⟩]) Store.init 2).2 = 0 ∧
+    (CliM.bridgeOne (Bio.ttLib 1) (fun _ => [⟨1, 0, 0⟩]) Store.init 2).2 = 1 := by decide
+
+/-! ### `DumpSpec` is satisfiable by dumps of the shape biodivine writes (review 2, item 7)
+
+The instances used in the examples above (`Bio.ttDump2_spec`, `Bio.ttDump_spec`) dump FULL, UNREDUCED
+decision trees. Real dumps are reduced and shared and skip levels, e.g. `|3,0,0|3,1,1|2,0,1|1,0,2|0,3,2|`.
+`Bio.storeLib` (StoreLib.lean) is the project's own verified ROBDD store as a `Bio.Lib`: a diagram is a
+pair (node table, handle), binary operations import the second operand by replaying its dump
+(`Bio.importInto` - the loop of `from_biodivine_vector` itself), `restrict` is the store's cofactor,
+`sat_valuations` walks the diagram. It is lawful for every number of variables the store can number,
+and its dump - the node table up to the handle: terminals first, children before parents, root last,
+REDUCED, SHARED, levels skipped - satisfies `DumpSpec`. NOTE: `DumpSpec` remains an assumption about the
+external crate; no real biodivine dump is ever checked (the harness validates the bridged native table
+with `wfCheck` / `isoCheck`, it never sees the dump text). -/
+
+/-- the store-based library is lawful and its (reduced, shared) dumps satisfy `DumpSpec` -/
+theorem dump_spec_holds_for_reduced_shared_diagrams (nv : Nat) (hn : nv ≤ VBOT) :
+    ∃ W : Bio.Lawful (Bio.storeLib nv) nv, Bio.DumpSpec W Bio.storeDump :=
+  ⟨Bio.storeLawful nv hn, Bio.storeDump_spec nv hn⟩
+
+/-- the dump of ANY handle of ANY well-formed store is an ordered dump whose entry `j` denotes the
+function of handle `j` - in particular its last entry the function of the dumped handle -/
+theorem store_dump_is_ordered (s : Store) (w : WF s) (t : Nat) (ht : t < s.nodes.size) :
+    DumpOK (Bio.storeDump (s, t)) ∧ (Bio.storeDump (s, t)).length = t + 1 ∧
+    Den (Bio.storeDump (s, t)) ((Bio.storeDump (s, t)).length - 1) (eval s t) := by
+  have hl := Bio.storeDump_len s t ht
+  refine ⟨Bio.storeDump_ok s w t, hl, ?_⟩
+  rw [hl]
+  exact Bio.storeDump_den s w t ht t (Nat.le_refl t)
+
+/-- a concrete dump in biodivine's own layout (terminal entries `|3,0,0|3,1,1|`): `(x0 ∧ x2) ∨ (x1 ∧ x2)`
+over three variables; node 2 (`x2`) is SHARED by nodes 3 and 4, the high edge of the root SKIPS level 1.
+It is ordered and its last entry denotes the function; and it is (up to the two terminal entries, which
+the bridge never reads) the dump of a valid diagram of `Bio.storeLib 3` -/
+theorem real_shaped_dump :
+    Bio.realDump = [⟨3, 0, 0⟩, ⟨3, 1, 1⟩, ⟨2, 0, 1⟩, ⟨1, 0, 2⟩, ⟨0, 3, 2⟩] ∧ DumpOK Bio.realDump ∧
+    (∃ f, Den Bio.realDump (Bio.realDump.length - 1) f ∧ ∀ σ, f σ = ((σ 0 && σ 2) || (σ 1 && σ 2))) ∧
+    (Bio.storeDump (Bio.exStore, 4)).drop 2 = Bio.realDump.drop 2 :=
+  ⟨rfl, Bio.realDump_ok, ⟨_, Bio.realDump_den, Bio.realDump_sem⟩, Bio.exStore_dump_real⟩
+
 /-- two tables holding `x0 ∧ x1` under DIFFERENT handles (the second has an extra node and another
 numbering) -/
 def isoA : Store :=
@@ -169,6 +271,39 @@ theorem from_parser_any_order_correct (fs : List Fact) (s : Store) (ac : List Na
     (h : fromParser (PState.ofFacts fs) = some (s, ac)) (hn : (namesOf fs).length ≤ VBOT) :
     WF s ∧ ac.length = (namesOf fs).length ∧ (∀ t ∈ ac, t < s.nodes.size) ∧ ac.map (eval s) = condFns fs :=
   fromParser_correct fs s ac h hn
+
+/-- **the library-side `from_parser` preserves every acceptance condition, facts in ANY order** (the
+counterpart of `from_parser_any_order_correct` for `adfbiodivine::Adf::from_parser`, model
+`CliM.bioBuild`): on a well-formed file whose labels the library accepts it does not panic, yields one
+valid diagram per statement, and diagram `p` denotes the function of the last condition written for the
+`p`-th declared statement (⊥ if none) -/
+theorem biodivine_from_parser_any_order {T : Type} (L : Bio.Lib T) (fs : List Fact)
+    (W : Bio.Lawful L (namesOf fs).length) (hwf : WellFormedAdf fs) (hn : (namesOf fs).length ≤ VBOT)
+    (hnames : (namesOf fs).all CliM.bioNameOK = true) (rew : Bool) :
+    ∃ (acB : List T) (rw : Option T), CliM.bioBuild L (PState.ofFacts fs) rew = some (acB, rw) ∧
+      acB.length = (namesOf fs).length ∧ (∀ x ∈ acB, W.Valid x) ∧ acB.map W.den = condFns fs :=
+  Bio.bioBuild_from_facts L fs W hwf hn hnames rew
+
+/-- … hence the hybrid pipeline from such a file (C02/C03 composed; these corollaries live here because
+`CliModesProofs` imports `Props/C02`, `Props/C03`): `complete` lists exactly the fixpoints of Γ for
+`condFns fs`, `stable` exactly its stable models, each once -/
+theorem hybrid_complete_stable_from_facts {T : Type} (L : Bio.Lib T) (fs : List Fact)
+    (W : Bio.Lawful L (namesOf fs).length) (dump : T → List Node) (hd : Bio.DumpSpec W dump) (opt : Bool)
+    (hwf : WellFormedAdf fs) (hn : (namesOf fs).length ≤ VBOT)
+    (hnames : (namesOf fs).all CliM.bioNameOK = true) :
+    ∃ (acB : List T) (rw : Option T), CliM.bioBuild L (PState.ofFacts fs) false = some (acB, rw) ∧
+      let n := (namesOf fs).length
+      let r := Bio.hybridStep L dump opt acB
+      let co := (completeAll r.1 n r.2).2.2.map (fun v => v.map storeIsConst)
+      let sb := (stableAll r.1 n r.2).2.map (fun v => v.map storeIsConst)
+      (co.Nodup ∧ ∀ w : I3, w ∈ co ↔ (w.length = n ∧ Gam (condFns fs) w = w)) ∧
+      (sb.Nodup ∧ ∀ v : I3, v ∈ sb ↔ (v.length = n ∧ StableExact.StableI (condFns fs) v)) := by
+  obtain ⟨acB, rw, hb, hl, hv, hden⟩ := Bio.bioBuild_from_facts L fs W hwf hn hnames false
+  refine ⟨acB, rw, hb, ?_⟩
+  have h1 := Bio.hybrid_complete W hd opt acB hv hl
+  have h2 := Bio.hybrid_stable W hd opt acB hv hl
+  rw [hden] at h1 h2
+  exact ⟨⟨h1.1, h1.2.1⟩, ⟨h2.1, h2.2.1⟩⟩
 
 /-- no condition: ⊥, and the entry is the initial `Term(0)`; several conditions: the last one -/
 theorem from_parser_zero_or_several (fs : List Fact) :
